@@ -243,11 +243,18 @@ def cases(tier, seed):
                 if kr and nb % 2:
                     continue
                 out.append(Case(f"AHC nb={nb} nEF={nEF} kramers={kr}", case_ahc, dict(nb=nb, nEF=nEF, kramers=kr), timeout=1100))
+    # tetrahedron method: the sum rule for E_F above all bands needs every band to carry total weight exactly 1 there (and 0 below): the band-group
+    # weight cases of the C14 harness (real TetraWeights.weights_all_band_groups with sea completion, degenerate groups included) decide that
+    from props import c14
+    out += [Case("tetra weights: " + c.name, c.fn, c.kwargs, timeout=c.timeout) for c in c14.cases(tier, seed) if c.name.startswith("groups") and "der=0" in c.name]
     return out
 
 
 # ------------------------------------------------------------------------------------------------------------
 def replay(rec):
+    if rec.get("witness", {}).get("test") == "groups":       # tetra-weight case shared with the C14 harness
+        from props import c14
+        return c14.replay(rec)
     try:
         return _replay(rec)
     except Exception as e:      # an exception inside the repo code reproduces a recorded "raises <Type>" finding of the same type
